@@ -112,6 +112,32 @@ theorem afterDeposit_eq_ctxOf {cfg : Config} {N : Nat} {st st1 : State} {c : Ctx
     ctxOf cfg st1 = .ok (afterDeposit c v) :=
   block_eq_ctxOf st.validators [v] hc hN hN1 hw hmin hmax hvec hfar hvals rfl rfl hsc hsn
 
+/-- **The hypotheses are checked on every observed step.** `zmodel c08` evaluates `epochWritesB` (and `inEpochHypsB` /
+`boundaryHypsB`) between consecutive states of every generated chain and reports a step on which they fail. These
+checks are sound: when they pass, the assumptions of the step theorems hold, so the step theorems apply to that step. -/
+theorem epochWritesB_sound {cfg : Config} {N : Nat} {st st' : State} (h : epochWritesB cfg N st st' = true) :
+    EpochWrites cfg N st st' := epochWritesB_sound' h
+
+/-- a checked step inside an epoch: the new context is the old one plus `afterDeposit` for the appended validators -/
+theorem checked_step_inEpoch {cfg : Config} {N : Nat} {st st' : State} {c : Ctx}
+    (hc : ctxOf cfg st = .ok c) (hN : get_current_epoch cfg st = N) (hN' : get_current_epoch cfg st' = N)
+    (hw : epochWritesB cfg N st st' = true) (hh : inEpochHypsB st st' = true)
+    (hmin : 1 ≤ cfg.MIN_SEED_LOOKAHEAD) (hmax : 1 ≤ cfg.MAX_SEED_LOOKAHEAD)
+    (hvec : cfg.MIN_SEED_LOOKAHEAD + 3 < cfg.EPOCHS_PER_HISTORICAL_VECTOR) (hfar : N + 1 < FAR_FUTURE_EPOCH) :
+    ctxOf cfg st' = .ok ((st'.validators.drop st.validators.length).foldl afterDeposit c) := by
+  obtain ⟨h1, h2, h3, h4, h5⟩ := inEpochHypsB_sound hh
+  exact block_eq_ctxOf _ _ hc hN hN' (epochWritesB_sound hw) hmin hmax hvec hfar h1 h2 h3 h4 h5
+
+/-- a checked epoch boundary: rotating the old context gives the context of the new state -/
+theorem checked_step_boundary {cfg : Config} {N : Nat} {st st' : State} {c : Ctx}
+    (hc : ctxOf cfg st = .ok c) (hN : get_current_epoch cfg st = N) (hN' : get_current_epoch cfg st' = N + 1)
+    (hw : epochWritesB cfg N st st' = true) (hh : boundaryHypsB cfg N st st' = true)
+    (hmin : 1 ≤ cfg.MIN_SEED_LOOKAHEAD) (hmax : 1 ≤ cfg.MAX_SEED_LOOKAHEAD)
+    (hvec : cfg.MIN_SEED_LOOKAHEAD + 3 < cfg.EPOCHS_PER_HISTORICAL_VECTOR) (hfar : N + 1 < FAR_FUTURE_EPOCH) :
+    rotate cfg c st' = ctxOf cfg st' := by
+  obtain ⟨h1, h2⟩ := boundaryHypsB_sound hh
+  exact rotate_eq_ctxOf hc hN hN' (epochWritesB_sound hw) hmin hmax hvec hfar h1 h2
+
 /-- The (state, live context) pairs a chain can reach: a context made from scratch (genesis, or a reload), then any
 sequence of steps inside an epoch (blocks with deposits), epoch boundaries (`rotate`) and fork upgrades
 (`afterUpgrade`), each under the hypotheses of the corresponding step theorem. -/
